@@ -91,7 +91,16 @@ func vcRunC18(t *vcTrial, ks []int, pickers int, random bool) {
 	probes := 0
 	for phase, k := range ks {
 		if phase > 0 {
-			// reconfiguration happens while no Pick is in flight
+			// reconfiguration happens while no Pick is in flight; the configuration may be changed
+			// several times before the next Pick - the last value is the configured one (also when it
+			// equals the size the pool is still running at)
+			for n := r.intn(3); n > 0; n-- {
+				if err := m.SetNumLoops([]int{1, 2, 3, 5, 8, vcMaxInt(1, len(m.polls)-1), len(m.polls) + 1}[r.intn(7)]); err != nil {
+					t.Violate("C18", "setnumloops", "SetNumLoops = %v", err)
+					return
+				}
+				t.Stat("reconfigurations_overwritten", 1)
+			}
 			if err := m.SetNumLoops(k); err != nil {
 				t.Violate("C18", "setnumloops", "SetNumLoops(%d) = %v", k, err)
 				return
